@@ -39,6 +39,9 @@ func boundSet(universe [][]byte, snaps ...model.Snap) [][]byte {
 		if len(k) > 1 {
 			add(k[:len(k)-1])
 		}
+		if len(k) == 0 {
+			continue // the empty key: its only neighbour by bytes is {0}, added above
+		}
 		// predecessor / successor by last byte
 		p := append([]byte(nil), k...)
 		if p[len(p)-1] > 0 {
@@ -266,7 +269,7 @@ func init() {
 		Cases: func(tier string) int { return tierN(tier, 160, 8000) },
 		Rule: "case = one history (10-40 ops; 1-8 keys incl. adjacent/prefix keys and 0x00/0xff bytes); at ~6 states per history (committed latest, working tree with uncommitted additions/updates/removals, historical versions, empty tree; fast index on and off) every iteration interface is run over (start,end,direction) triples drawn from: nil, empty non-nil, stored keys, predecessor/successor by byte, k+0x00, proper prefixes, keys only in the overlay / only on disk, below-min, above-max - all ordered pairs x 2 directions (sampled to 160 per state in quick, 600 in thorough). " +
 			"Interfaces: tree-walk Iterator, FastIterator, UnsavedFastIterator, MutableTree.Iterator without index, IterateRange, IterateRangeInclusive, Iterate. Oracle: the model's keys with start<=k<end (<= for inclusive), each once, in order, with the current value; Domain(); Valid() false for good after exhaustion and after Close; Error() nil; stop requests honoured at exactly that element (visited count and return value). " +
-			"distinct = hash(config, ops); non-trivial = >=1 state with uncommitted changes iterated through the index+overlay iterator and >=1 historical version iterated.",
+			"Backends: MemStore, MemDB, and GoLevelDB in 1 case of 8. distinct = hash(config, ops); non-trivial = >=1 state with uncommitted changes iterated through the index+overlay iterator and >=1 historical version iterated.",
 		Assumptions: []string{"model M; bound conventions: nil = unbounded, empty non-nil start = unbounded below, empty non-nil end = nothing, inverted = nothing", "Next() is never called on an invalid iterator (caller contract of corestore.Iterator)"},
 		Run: func(c *fw.Ctx) {
 			w := map[string]int{"set": 40, "rm": 16, "save": 20, "rollback": 3, "reopen": 6, "load": 2, "delto": 3, "lfo": 2, "delfrom": 1}
@@ -276,6 +279,12 @@ func init() {
 				maxTr = 600
 			}
 			pl := v1x.MakePlan(c.Rng, p)
+			if c.Index%8 == 5 {
+				pl.Cfg.Backend = "goleveldb" // (its iterators hand out buffers that are reused by Next)
+			}
+			if v1x.EmptyKeyVariant(pl, c.Index) {
+				c.Obs("histories_with_the_empty_key", 1)
+			}
 			c.Res.Digest = fw.DigestOf(pl.Cfg, pl.Summary(1000))
 			if c.Index < 2 {
 				c.Res.Sample = pl.Summary(60)
